@@ -79,6 +79,7 @@ type Config struct {
 	ChainID    string
 	NKeys      int              // number of deterministic keys (named a1..aN)
 	Balances   map[int]int64    // key index -> genesis balance
+	CodecUpgradeAt int64        // height K of the codec (amino -> proto) upgrade: codec.OldUpgradeHeight = K, UpgradeHeight = K+1 (default K = 1: every recorded block is past it); transactions of blocks below K must be built with TxOpts.Legacy
 	BigBase    map[int]string   // key index -> decimal number added to the genesis balance and subtracted again by the projection (balances at the 2^64 boundary while the specification keeps small numbers)
 	Nodes      []NodeSpec
 	Apps       []AppSpec
@@ -159,10 +160,16 @@ func Logger() log.Logger {
 
 // SetFeatureGlobals installs the process-global upgrade schedule the way a node that
 // replayed the upgrades would have it.
-func SetFeatureGlobals(features map[string]int64) {
+func SetFeatureGlobals(features map[string]int64) { SetFeatureGlobalsAt(features, 1) }
+
+// SetFeatureGlobalsAt: the same with the codec upgrade at height k (GetCodecUpgradeHeight() = k).
+func SetFeatureGlobalsAt(features map[string]int64, k int64) {
+	if k < 1 {
+		k = 1
+	}
 	codec.TestMode = 0
-	codec.OldUpgradeHeight = 1
-	codec.UpgradeHeight = 2
+	codec.OldUpgradeHeight = k
+	codec.UpgradeHeight = k + 1
 	m := make(map[string]int64)
 	for k, v := range features {
 		if v > 0 {
@@ -311,7 +318,11 @@ func BuildGenesis(cfg Config, keys []crypto.PrivateKey) app.GenesisState {
 	}
 	gg.Params.ACL = acl
 	gg.Params.DAOOwner = owner
-	gg.Params.Upgrade = govTypes.Upgrade{Height: 2, Version: "0.1.0", OldUpgradeHeight: 1, Features: featureSlice(feats)}
+	ck := cfg.CodecUpgradeAt
+	if ck < 1 {
+		ck = 1
+	}
+	gg.Params.Upgrade = govTypes.Upgrade{Height: ck + 1, Version: "0.1.0", OldUpgradeHeight: ck, Features: featureSlice(feats)}
 	gg.DAOTokens = sdk.NewInt(cfg.DAOTokens)
 	gen[govTypes.ModuleName] = cdc.MustMarshalJSON(gg)
 	return gen
@@ -351,7 +362,7 @@ func New(cfg Config) *Sim {
 	if feats == nil {
 		feats = DefaultFeatures()
 	}
-	SetFeatureGlobals(feats)
+	SetFeatureGlobalsAt(feats, cfg.CodecUpgradeAt)
 	logger := Logger()
 	pocketTypes.CleanPocketNodes()
 	if cfg.Servicer >= 0 && cfg.Servicer < len(s.Keys) && cfg.Servicer != 0 || cfg.Servicer > 0 {
